@@ -108,6 +108,11 @@ def run(ctx, prop_note):
             samples.append(ops)
         rc, out, err = idf.run_harness(ops, pinned)
         if rc != 0:
+            # a panic raised inside salsa itself on a history the proved model accepts is a
+            # concrete failing input (reads of current handles must return their fields)
+            lines = [l for l in err.splitlines() if "panicked at" in l or "interned" in l]
+            if any("/src/" in l and "harness" not in l for l in lines):
+                oracle_bad.append((ops, "salsa panicked: " + " / ".join(lines[:3])))
             continue
         prob, kf = spec_oracle(idf.parse_harness(out), ctx.prop)
         if kf:
